@@ -47,9 +47,16 @@ Definition hash_eqb (x y : list tok * (Z * Z)) : bool :=
   toks_eqb (fst x) (fst y) && (fst (snd x) =? fst (snd y)) && (snd (snd x) =? snd (snd y)).
 
 (* attributes: fields compare by (type, name); constants additionally by value *)
-Inductive cval := CRat (num den : Z) | CBool (b : bool).
+(* expression values: rationals in lowest terms, booleans, strings as code point lists (equality of String objects is
+   the equality of their code points - the NFC-normalising comparison is the DSDL operator `==`, not `__eq__`) *)
+Inductive cval := CRat (num den : Z) | CBool (b : bool) | CStr (s : list Z).
 Definition cval_eqb (a b : cval) : bool :=
-  match a, b with CRat n d, CRat n' d' => (n =? n') && (d =? d') | CBool x, CBool y => Bool.eqb x y | _, _ => false end.
+  match a, b with
+  | CRat n d, CRat n' d' => (n =? n') && (d =? d')
+  | CBool x, CBool y => Bool.eqb x y
+  | CStr x, CStr y => list_eqb x y
+  | _, _ => false
+  end.
 Definition name_eqb (a b : option str) : bool :=
   match a, b with Some x, Some y => list_eqb x y | None, None => true | _, _ => false end.
 Definition field_eq (a b : option str * ty) : bool := ty_eq (snd a) (snd b) && name_eqb (fst a) (fst b).
